@@ -68,6 +68,9 @@ TFinal == /\ st = "gen" /\ k = Len(Tr.list)
           /\ TreeMatchesJ(cur, ToFs(Tr.final), J)
           /\ "extra" \in J => Len(Tr.extra) = 0         \* nothing left behind outside the listed names
           /\ ("lit" \in J /\ Tr.opts.n) => Tr.lit = 0   \* C10: a dry run moves no file data
+          \* C12 (RecvSide!RepeatIsNoOp on the real receiver): after a -t sync the immediately repeated
+          \* session succeeds and requests nothing
+          /\ ("repeat" \in J /\ Tr.opts.t /\ ~Tr.opts.I /\ ~Tr.opts.n) => (Tr.result2 = "ok" /\ Len(Tr.reqs2) = 0)
           /\ st' = "acc" /\ UNCHANGED <<t, k, r, cur>>
 
 TStep == TDelete \/ TGen \/ TFinal
